@@ -392,6 +392,15 @@ def run_enc_correspondence(ck, q):
                 proto["int32_data"] = vals
             dec_reqs.append({"op": "dec", "q": q, "proto": proto})
             dec_real.append((d, t))
+    # raw storage (ONNX: little-endian, fixed width): to_array's raw branch vs the model's
+    for d in [x for x in DT_ALL if x != "str"]:
+        for n in (0, 1, 3, 1024):
+            spec = materialise({"dtype": d, "shape": [n], "gen_seed": rng.getrandbits(32)})
+            arr = make_array(spec)
+            le = arr.astype(arr.dtype.newbyteorder("<")) if arr.dtype.byteorder == ">" else arr
+            t = onnx.helper.make_tensor("", W.ONNX_ENUM[d], [n], le.tobytes(), raw=True)
+            dec_reqs.append({"op": "dec", "q": q, "proto": {"data_type": W.ONNX_ENUM[d], "dims": [n], "raw_data": list(le.tobytes())}})
+            dec_real.append((d, t))
     outs = ck.driver().ask_many("C10", dec_reqs)
     for (d, t), m in zip(dec_real, outs):
         back = nh.to_array(t)
